@@ -224,5 +224,19 @@ REG['C19'] = dict(
          'the real get_confidences; its range is C16).',
     technique='Lean 4 proof (fold invariant: first strict maximum) + differential correspondence',
     ref='§5-C19')
+REG['C20'] = dict(
+    text=PARTIAL + 'Lean 4 theorems over a symbolic model of the key/value cache protocol (slots tagged with the batch and step that '
+         'wrote them, torch.empty = garbage): for EVERY history of batches with equal or different batch sizes and source lengths, '
+         'every slot read at step t of batch n was written in batch n at a step <= t and the cross-attention K/V are those of batch n '
+         '(never garbage, never a stale value); the view/transpose index algebra addresses the same cell and is lane preserving; the '
+         'decoding loop stops within W/4 + 2 network evaluations for every network; the post-processed transcription contains no '
+         'boundary / ignore symbol. Tie to the real code without source hooks: tensor snapshots around every Decoder.infer call give '
+         'the real write sets and re-allocations (compared with the model), and every slot the model calls invalid is poisoned with '
+         'NaN before each step - the outputs stay NaN-free and bit-identical. NOT decided by proof: float equality of cached vs. '
+         'uncached vs. teacher-forced scores, per-line and per-history independence of the numbers (checked differentially, 1e-4).',
+    note='Trusted: PyTorch kernels act lane-wise; random-weight small models stand in for trained ones; the VGG front-end is replaced '
+         'by a conv stub (it downloads weights).',
+    technique='Lean 4 proof (cache-freshness invariant over batch histories) + snapshot/NaN-poisoning correspondence (partial)',
+    ref='§5-C20')
 REG.update(REG13)
 NOT_YET = {}
